@@ -7,6 +7,7 @@
 -/
 import Kevo.Model.Table
 import Kevo.Proofs.Table
+import Kevo.Proofs.TableCache
 import Kevo.Gen.Consts
 namespace Kevo.Props.C11
 open Kevo Kevo.Block Kevo.Table
@@ -58,6 +59,39 @@ theorem table_get_spec (p : Params) (hp : ParamsWF p) (hash fnv : Bytes → Nat)
         | some e => .found e.val
         | none => .notFound) :=
   Kevo.Proofs.Table.table_get_spec p hp hash fnv hh ts hts bloom es hne hasc hwf hsz k
+
+/-- the reader's block cache is transparent. For any open reader whose index names one size per block offset, any cache
+    capacity, any eviction choice (`victim`: Go evicts whichever key its map iteration yields first) and any history of
+    lookups starting from a sound cache, every lookup returns what the uncached lookup returns. -/
+theorem cache_transparent (hash fnv : Bytes → Nat) (cap : Nat) (victim : Cache → Nat) (r : Table.Reader)
+    (hlf : Kevo.Proofs.TableCache.LocFun r.index) (ks : List Bytes) :
+    (Table.getsC hash fnv cap victim r ks []).1 = ks.map (Table.get hash fnv r) :=
+  (Kevo.Proofs.TableCache.getsC_eq hash fnv cap victim r hlf ks [] (Kevo.Proofs.TableCache.cacheOK_nil hash r)).1
+
+/-- point lookup through the cache, for EVERY history of lookups on a written table (the statement's "finds every written
+    key and nothing else" is about a reader that is used more than once): whatever was looked up before, whatever the
+    cache evicted, the k-th lookup finds exactly the written entry. -/
+theorem table_get_cached_spec (p : Params) (hp : ParamsWF p) (hash fnv : Bytes → Nat) (hh : HashOK hash) (ts : Nat)
+    (hts : ts < 2 ^ 64) (bloom : Bool) (es : List BEntry) (hne : es ≠ []) (hasc : Block.strictAsc es = true)
+    (hwf : ∀ e ∈ es, EntryWF e) (hsz : (Table.encode p hash fnv ts bloom es).length < 2 ^ 32)
+    (cap : Nat) (victim : Cache → Nat) (ks : List Bytes) :
+    ∀ r, Table.openTable p hash (Table.encode p hash fnv ts bloom es) = some r →
+      (Table.getsC hash fnv cap victim r ks []).1 = ks.map (fun k => match es.find? (fun e => e.key = k) with
+        | some e => .found e.val
+        | none => .notFound) := by
+  intro r hr
+  exact Kevo.Proofs.TableCache.table_get_cached_aux p hp.split.1 hash fnv hh ts hts bloom (hp.split.2 bloom) es hne hasc hwf hsz
+    r hr cap victim ks
+
+/-- the cache stays within its capacity (`max cap 1`: a cache of capacity 0 still holds the block just stored) -/
+theorem cache_bounded (cap : Nat) (victim : Cache → Nat) (c : Cache) (off : Nat) (es : List BEntry)
+    (hv : victim c < c.length) (h : c.length ≤ max cap 1) : (c.put cap victim off es).length ≤ max cap 1 :=
+  Kevo.Proofs.TableCache.cache_put_length cap victim c off es hv h
+
+/-! non-vacuity: a full cache of capacity 2 evicts the chosen victim and stores the new block under its offset -/
+example : Cache.put 2 (fun _ => 1) [(0, []), (70, [])] 140 [{ key := [1], val := none, seq := 4 }]
+    = [(140, [{ key := [1], val := none, seq := 4 }]), (0, [])] := by decide
+example : (Cache.put 2 (fun _ => 1) [(0, []), (70, [])] 140 []).get 70 = none := by decide
 
 /-- the constants extracted from the source satisfy the shape the proofs need. -/
 theorem consts_wf : ParamsWF Kevo.Gen.tableParams := by
